@@ -732,9 +732,31 @@ def gen_merge16(rng):
     if rng.random() < 0.15:
         opts += ["-J", rng.choice(["0", "2"])]
     outmode = rng.choice(["stdout", "stdout", "output", "overwrite"])
-    return {"tool": "yaml-merge", "opts": opts, "names": names,
-            "files": files, "outmode": outmode,
-            "outname": W + rng.choice(["out.yaml", "out.json", "out.txt"])}
+    scn = {"tool": "yaml-merge", "opts": opts, "names": names,
+           "files": files, "outmode": outmode,
+           "outname": W + rng.choice(["out.yaml", "out.json", "out.txt"])}
+    if rng.random() < 0.2:
+        # multi-document inputs merged document by document
+        scn["opts"] = [o for i, o in enumerate(opts)
+                       if o != "-M" and (i == 0 or opts[i - 1] != "-M")] \
+            + ["-M", "merge_across"]
+        files = {}
+        names = []
+        for idx in range(2):
+            parts = []
+            for _ in range(rng.choice([2, 2, 3])):
+                gen = gen_docs.DocGen(rng, sets=False, anchors=False,
+                                      max_nodes=rng.choice([4, 8]))
+                doc = gen.document(root=root)
+                if rng.random() < 0.4:
+                    parts.append("--- " + gen_docs.flow_text(doc) + "\n")
+                else:
+                    parts.append(gen_docs.to_yaml(doc, start=True))
+            name = W + "mm%d.yaml" % idx
+            files[name] = "".join(parts)
+            names.append(name)
+        scn.update(files=files, names=names, multidoc=True)
+    return scn
 
 
 def merge_args(opts, output=None):
@@ -755,6 +777,28 @@ def expect_merge(scn, texts, output):
     args = merge_args(scn["opts"], output)
     config = MergerConfig(log, args)
     yaml = Parsers.get_yaml_editor()
+    if scn.get("multidoc"):
+        streams = []
+        for text in texts:
+            docs, okay = strict_load_all(text)
+            if not okay:
+                return {"exit": "nonzero"}
+            streams.append(docs)
+        mergers = [Merger(log, doc, config) for doc in streams[0]]
+        try:
+            for rhs_docs in streams[1:]:
+                for idx, rhs in enumerate(rhs_docs):
+                    if idx >= len(mergers):
+                        mergers.append(Merger(log, rhs, config))
+                    else:
+                        mergers[idx].merge_with(rhs)
+        except (MergeException, YAMLPathException):
+            return {"exit": "nonzero"}
+        kind = mergers[0].prepare_for_dump(yaml, output or "")
+        for mrg in mergers:
+            mrg.prepare_for_dump(yaml, output or "")
+        return {"exit": 0, "json": kind is OutputDocTypes.JSON,
+                "many": [mrg.data for mrg in mergers]}
     datas = []
     for text in texts:
         data, okay = strict_load(text)
@@ -792,6 +836,46 @@ def judge_merge(scn, exp, res, out_text):
     if res.exit != 0:
         out.append("merge:exit-%s-although-library-merge-succeeded"
                    % res.exit)
+        return out
+    if "many" in exp:
+        # one document per merged pair, all in the format of the first
+        try:
+            if exp["json"]:
+                got = []
+                decoder = json.JSONDecoder()
+                rest = out_text.strip()
+                while rest:
+                    value, end = decoder.raw_decode(rest)
+                    got.append(value)
+                    rest = rest[end:].lstrip()
+            else:
+                # a YAML stream, not one-JSON-document-per-line (which a
+                # YAML loader would also accept)
+                try:
+                    decoder = json.JSONDecoder()
+                    rest = out_text.strip()
+                    count = 0
+                    while rest:
+                        _value, end = decoder.raw_decode(rest)
+                        count += 1
+                        rest = rest[end:].lstrip()
+                    json_stream = count > 1
+                except ValueError:
+                    json_stream = False
+                if json_stream:
+                    raise ValueError("JSON lines where YAML was requested")
+                docs, okay = strict_load_all(out_text)
+                if not okay:
+                    raise ValueError("does not load")
+                got = [plain(d) for d in docs]
+        except ValueError:
+            out.append("merge:output-not-in-requested-format")
+            return out
+        want = [plain(d) for d in exp["many"]]
+        if exp["json"]:
+            want = json.loads(json.dumps(want))
+        if got != want:
+            out.append("merge:output-differs-from-library-merge")
         return out
     try:
         got = parse_output(out_text, exp["json"])
